@@ -42,7 +42,10 @@ let variant_of = function
   | _ -> raise (Parse_error "variant")
 
 let req_of = function
-  | L [A "req"; A m; p; d; v] -> { q_meth = meth_of m; q_path = str p; q_depth = depth_of d; q_var = variant_of v }
+  | L (A "req" :: A m :: p :: d :: v :: dl) ->
+    (* the delivery form of the body does not enter the model *)
+    (match dl with [A x] -> bump ("delivery_" ^ x) | _ -> ());
+    { q_meth = meth_of m; q_path = str p; q_depth = depth_of d; q_var = variant_of v }
   | _ -> raise (Parse_error "req")
 
 let op_of = function
@@ -102,25 +105,7 @@ let show_disc = function
 
 let simple agree detail = verdict ~agree ~spec:true ~kf:"-" ~detail
 
-let () =
-  run_file Sys.argv.(1) (fun _ sx ->
-    match sx with
-    | [L [A "clean"; s]; L [r]] ->
-      bump "clean"; let m = clean (str s) in simple (m = str r) ("model=" ^ show_chars m)
-    | [L [A "split"; s]; L [L parts]] ->
-      bump "split"; let m = split_slash (str s) in
-      simple (m = List.map str parts) ("model=" ^ String.concat "|" (List.map show_chars m))
-    | [L [A "trimslash"; s]; L [r]] ->
-      bump "trimslash"; let m = trim_slash (str s) in simple (m = str r) ("model=" ^ show_chars m)
-    | [L [A "hasprefix"; s; p]; L [r]] ->
-      bump "hasprefix"; simple (has_prefix (str s) (str p) = bool_ r) "model differs"
-    | [L [A "trimprefix"; s; p]; L [r]] ->
-      bump "trimprefix"; let m = trim_prefix (str s) (str p) in simple (m = str r) ("model=" ^ show_chars m)
-    | [L [A "rtype"; _; p; s]; L [r]] ->
-      bump "rtype"; let m = int_of_nat (resource_type_at_path (str p) (str s)) in
-      if m >= 1 then note_nontrivial (show (List.hd sx));
-      simple (m = int_ r) (Printf.sprintf "model=%d" m)
-    | [L [A "serve"; srv; hp; be; rq; lay]; obs] ->
+let judge_serve sx srv hp be rq lay obs =
       let s = srv_of srv and hprefix = str hp and b = backend_of be and q = req_of rq in
       let m = serve s hprefix b q in
       (match obs_of obs with
@@ -139,7 +124,8 @@ let () =
          bump ("method_" ^ (match rq with L (_ :: A m :: _) -> m | _ -> "?"));
          bump (Printf.sprintf "status_%d" (int_of_n o.o_status));
          verdict ~agree ~spec ~kf:"-" ~detail:("model: " ^ show_outcome m))
-    | [L [A "disc"; srv; hp; be; st; hier]; obs] ->
+
+let judge_disc sx srv hp be st hier obs =
       let s = srv_of srv and hprefix = str hp and b = backend_of be and start = str st in
       let m = discover s hprefix b start in
       (match disc_of obs with
@@ -154,4 +140,41 @@ let () =
            | _ -> bump "outside_quantifier"; true in
          bump (match o with Found _ -> "disc_found" | Failed st -> "disc_fail_" ^ step_name st);
          verdict ~agree:(disc_agrees s hprefix b start o) ~spec ~kf:"-" ~detail:("model: " ^ show_disc m))
+
+let rec last = function [x] -> x | _ :: r -> last r | [] -> raise (Parse_error "no step")
+
+let () =
+  run_file Sys.argv.(1) (fun _ sx ->
+    match sx with
+    | [L [A "clean"; s]; L [r]] ->
+      bump "clean"; let m = clean (str s) in simple (m = str r) ("model=" ^ show_chars m)
+    | [L [A "split"; s]; L [L parts]] ->
+      bump "split"; let m = split_slash (str s) in
+      simple (m = List.map str parts) ("model=" ^ String.concat "|" (List.map show_chars m))
+    | [L [A "trimslash"; s]; L [r]] ->
+      bump "trimslash"; let m = trim_slash (str s) in simple (m = str r) ("model=" ^ show_chars m)
+    | [L [A "hasprefix"; s; p]; L [r]] ->
+      bump "hasprefix"; simple (has_prefix (str s) (str p) = bool_ r) "model differs"
+    | [L [A "trimprefix"; s; p]; L [r]] ->
+      bump "trimprefix"; let m = trim_prefix (str s) (str p) in simple (m = str r) ("model=" ^ show_chars m)
+    | [L [A "rtype"; _; p; s]; L [r]] ->
+      bump "rtype"; let m = int_of_nat (resource_type_at_path (str p) (str s)) in
+      if m >= 1 then note_nontrivial (show (List.hd sx));
+      simple (m = int_ r) (Printf.sprintf "model=%d" m)
+    | [L [A "serve"; srv; hp; be; rq; lay]; obs] -> judge_serve sx srv hp be rq lay obs
+    | [L [A "disc"; srv; hp; be; st; hier]; obs] -> judge_disc sx srv hp be st hier obs
+    (* histories on one shared Handler: the observation is the last step's, judged by the
+       model on that step's own inputs (what came before must not matter) *)
+    | [L (A "hist" :: srv :: hp :: steps); obs] ->
+      bump (Printf.sprintf "history_length_%d" (List.length steps));
+      (match last steps with
+       | L [A "step"; be; rq; lay] -> judge_serve sx srv hp be rq lay obs
+       | _ -> raise (Parse_error "step"))
+    | [L [A "par"; srv; hp; L [A "step"; be; rq; lay]]; obs] ->
+      bump "overlapping"; judge_serve sx srv hp be rq lay obs
+    | [L (A "dhist" :: srv :: hp :: steps); obs] ->
+      bump (Printf.sprintf "discovery_history_length_%d" (List.length steps));
+      (match last steps with
+       | L [A "dstep"; be; st; hier] -> judge_disc sx srv hp be st hier obs
+       | _ -> raise (Parse_error "dstep"))
     | _ -> raise (Parse_error "line"))
